@@ -9,5 +9,8 @@ CONSTANTS
   MaxClosed = 0
   MaxBal = 0
   MaxVals = 6
+  Gaps = {}
+  RFs = {}
+  Ivs = {}
 INVARIANT Emit17
 CHECK_DEADLOCK FALSE
